@@ -625,15 +625,21 @@ def lattice_deck(seed):
         d.materials[m2] = MATS[m2]
     d.cells[30].rho = '-7.8'
     # lattice cell
-    refs = []
-    for (a, b, lo, w) in pairs:
-        lo_ref, hi_ref = ('s', a), ('s', -b)          # x > lo , x < lo + w
-        pr = [lo_ref, hi_ref]
-        rng.shuffle(pr)
-        refs += pr
-    e = refs[0]
-    for r in refs[1:]:
-        e = ('*', e, r)
+    def listing():
+        refs = []
+        order = list(pairs)
+        if rng.random() < 0.5:
+            rng.shuffle(order)                        # the index directions follow the listing, not the axes
+        for (a, b, lo, w) in order:
+            lo_ref, hi_ref = ('s', a), ('s', -b)          # x > lo , x < lo + w
+            pr = [lo_ref, hi_ref]
+            rng.shuffle(pr)
+            refs.extend(pr)
+        e = refs[0]
+        for r in refs[1:]:
+            e = ('*', e, r)
+        return e
+    e = listing()
     ranges = []
     for k in range(ndim):
         lo = rng.choice([-2, -1, 0])
@@ -655,7 +661,17 @@ def lattice_deck(seed):
     if L.homogeneous and rng.random() < 0.6:
         L.filltr = rng.choice([INLINE_TRS[1], INLINE_TRS[4], INLINE_TRS[2], ('inline', False, [0.1, 0.0, 0.0])])
     d.add_cell(L)
-    d.add_cell(Cell(1, 0, None, ('s', -30), fill=9))
+    if rng.random() < 0.4:
+        # a second lattice bounded by the same planes in another listing (other index directions / senses)
+        L2 = Cell(51, 1, '-2.0', listing(), universe=8, lat=1)
+        L2.fill_array = (ranges, [rng.choice([2, 3, 2, 3, 0, 8]) for _ in range(n)])
+        L2.homogeneous = False
+        d.add_cell(L2)
+        d.add_surf(Surf(31, 'p', [0.3, 0.2, 1.0, 0.1]))
+        d.add_cell(Cell(1, 0, None, ('*', ('s', -30), ('s', 31)), fill=9))
+        d.add_cell(Cell(3, 0, None, ('*', ('s', -30), ('s', -31)), fill=8))
+    else:
+        d.add_cell(Cell(1, 0, None, ('s', -30), fill=9))
     d.add_cell(Cell(2, 0, None, ('s', 30), imp=rng.choice([0, 1])))
     d.cells = dict(sorted(d.cells.items()))
     d.lattice_opts = ['50,' + ','.join(f'{lo}:{hi}' for lo, hi in ranges)] if L.homogeneous else []
@@ -725,7 +741,29 @@ def hex_deck(seed):
     L.homogeneous = False
     L.hex_vectors = (sides[first][3], sides[third][3])
     d.add_cell(L)
-    d.add_cell(Cell(1, 0, None, ('s', -30), fill=9))
+    if rng.random() < 0.5:
+        # a second lattice on the same six planes, listed in another admissible order (other i / j directions),
+        # filling the lower half of the container
+        first2 = rng.randrange(6)
+        third2 = rng.choice([k for k in range(6) if k % 3 != first2 % 3])
+        rest2 = [k for k in range(6) if k % 3 not in (first2 % 3, third2 % 3)]
+        rng.shuffle(rest2)
+        order2 = [first2, (first2 + 3) % 6, third2, (third2 + 3) % 6] + rest2
+        refs2 = [refs[order.index(k)] for k in order2]
+        e2 = refs2[0]
+        for r_ in refs2[1:]:
+            e2 = ('*', e2, r_)
+        L2 = Cell(51, 4, '-2.0', e2, universe=8, lat=2)
+        L2.fill_array = (ranges, [rng.choice([2, 3, 2, 3, 0, 8]) for _ in range(n)])
+        L2.homogeneous = False
+        L2.hex_vectors = (sides[first2][3], sides[third2][3])
+        d.materials[4] = MATS[4]
+        d.add_cell(L2)
+        d.add_surf(Surf(31, 'pz', [0.0]))
+        d.add_cell(Cell(1, 0, None, ('*', ('s', -30), ('s', 31)), fill=9))
+        d.add_cell(Cell(3, 0, None, ('*', ('s', -30), ('s', -31)), fill=8))
+    else:
+        d.add_cell(Cell(1, 0, None, ('s', -30), fill=9))
     d.add_cell(Cell(2, 0, None, ('s', 30), imp=0))
     d.cells = dict(sorted(d.cells.items()))
     d.lattice_opts = []
